@@ -927,7 +927,7 @@ def call_builtin(I, fr, name, args, kwargs, node):
         if a0 is None:
             return I.unmodelled(fr, node, "len()")
         n = a0.length()
-        if a0.kind in (K_SCALAR, K_NONE, K_BOOL) and a0.shape == ():
+        if a0.kind in (K_SCALAR, K_NONE, K_BOOL, K_ARRAY) and a0.shape == ():
             I.emit("type-error", fr, node, what="len() of a scalar/None")
         sign = S_NONNEG
         c = _NOCONST
